@@ -45,10 +45,10 @@ impl Property for C14 {
         "C14"
     }
     fn rule(&self) -> &'static str {
-        "gen words: every 16-bit header word w (key = w>>8, 256 words per key); gen triples: every (kind, label type, length) triple (key = kind*4+lt, 4096 lengths per key). gen decap-view: every word as the first two bytes of a 2-, 3- and 4100-byte buffer: decap answers Padding consuming the buffer, and the peek answers ErrHeaderRead, exactly for the padding pattern. A case is non-trivial when the word / triple is not the padding pattern (it exercises decode+re-encode); fingerprint = the word or the triple."
+        "gen words: every 16-bit header word w (key = w>>8, 256 words per key); gen triples: every (kind, label type, length) triple (key = kind*4+lt, 4096 lengths per key). gen decap-view: every word as the first two bytes of buffers of 2..8 bytes, of the announced packet length -1/+0/+1 and of 4100 bytes (zero or 0xA5 filled): decap never panics, answers Padding consuming the buffer, and the peek answers ErrHeaderRead, exactly for the padding pattern. gen emit-view: the encoder as used by encap / encap_ext / encap_frag over buffers 4088..=4104 and up to 70000 bytes: the header word of every reported packet decodes to the reported length - 2, the reported kind and the label type written. A case is non-trivial when the word / triple is not the padding pattern (it exercises decode+re-encode); fingerprint = the word or the triple."
     }
     fn gens(&self, _cx: &Cx) -> Vec<Gen> {
-        vec![Gen { name: "words", count: 256, exhaustive: true }, Gen { name: "triples", count: 16, exhaustive: true }, Gen { name: "decap-view", count: 256, exhaustive: true }]
+        vec![Gen { name: "words", count: 256, exhaustive: true }, Gen { name: "triples", count: 16, exhaustive: true }, Gen { name: "decap-view", count: 256, exhaustive: true }, Gen { name: "emit-view", count: 4 * 3, exhaustive: true }]
     }
     fn run_key(&self, cx: &Cx, gen: &str, key: u64, rep: &mut Report) {
         let replay = |k: u64| format!("gen={} key={} seed={} profile={}", gen, k, cx.seed, cx.profile);
@@ -111,13 +111,24 @@ impl Property for C14 {
                 for lo in 0..256u64 {
                     let w = ((key << 8) | lo) as u16;
                     let pad = wire::is_padding_word(w);
-                    for blen in [2usize, 3, 4100] {
+                    // 2, 3 bytes; 4..8 bytes; exactly the announced packet, one byte less / more; a frame-sized buffer
+                    let pkt = (w & 0x0FFF) as usize + 2;
+                    let mut lens = vec![2usize, 3, 4, 5, 6, 7, 8, pkt.saturating_sub(1).max(2), pkt, pkt + 1, 4100];
+                    lens.sort();
+                    lens.dedup();
+                    for blen in lens {
                         rep.eval();
-                        let mut buf = vec![0u8; blen];
+                        let fill = if (lo + blen as u64) % 3 == 0 { 0xA5u8 } else { 0 };
+                        let mut buf = vec![fill; blen];
                         buf[..2].copy_from_slice(&w.to_be_bytes());
                         let mut d = plain_dec(2, 16, 1, 16, wire::MandTable::none());
                         let pk = guard(|| d.get_label_or_frag_id(&buf));
                         let r = dec_guard(&mut d, &buf);
+                        if let Err(p) = &r {
+                            // "reading any of the 65536 fixed-header values never panics", seen through decap
+                            rep.violation("C14", format!("decap-view-panic:{}", crate::mon::panic_class(p)), || format!("decap of a {}-byte buffer starting with {:#06x} panicked: {}", blen, w, p), || replay(key));
+                            continue;
+                        }
                         let is_padding_status = matches!(&r, Ok(Ok((DecapStatus::Padding, n))) if *n == blen);
                         let any_padding = matches!(&r, Ok(Ok((DecapStatus::Padding, _))));
                         if pad && !is_padding_status {
@@ -136,7 +147,98 @@ impl Property for C14 {
                             }
                         }
                         if !pad {
-                            rep.nontrivial(0x2_0000 + ((w as u64) << 2) + (blen as u64 % 4));
+                            rep.nontrivial(0x2_0000_0000 + ((w as u64) << 13) + blen as u64);
+                        }
+                    }
+                }
+            }
+            "emit-view" => {
+                // the encoder seen through the functions that call it: every packet the encapsulator reports
+                // starts with a header word that decodes (independent reading) to the reported length - 2,
+                // the reported kind and the label type written; buffers around and above the 4097-byte limit
+                use crate::util::*;
+                use dvb_gse_rust::gse_encap::{EncapMetadata, EncapStatus, Encapsulator};
+                use dvb_gse_rust::header_extension::Extension;
+                use dvb_gse_rust::label::Label;
+                let lti = (key % 4) as u8;
+                let call = key / 4; // 0 encap, 1 encap_ext (optional extension), 2 encap_ext (final mandatory extension)
+                let label = match lti {
+                    0 => Label::SixBytesLabel([1, 2, 3, 4, 5, 6]),
+                    1 => Label::ThreeBytesLabel([7, 8, 9]),
+                    2 => Label::Broadcast,
+                    _ => Label::ReUse,
+                };
+                let bufs: Vec<usize> = (4088usize..=4104).chain([13, 14, 20, 100, 1000, 4000, 8192, 65535, 65536, 65537, 69632, 70000]).collect();
+                let pdus = [0usize, 1, 50, 4000, 4070, 4080, 4090, 4095, 4100, 5000, 9000, 20000];
+                for &bl in &bufs {
+                    for &pl in &pdus {
+                        rep.eval();
+                        let pdu = sentinel(pl, 7);
+                        let mut enc = Encapsulator::new(dvb_gse_rust::crc::DefaultCrc {});
+                        if lti == 3 {
+                            // an explicit re-use label needs a preceding packet
+                            let mut tmp = vec![0u8; 64];
+                            let _ = enc_guard(&mut enc, &[1, 2, 3], 0, EncapMetadata::new(0x0800, Label::ThreeBytesLabel([7, 8, 9])), &mut tmp);
+                        }
+                        let mut buf = vec![0x5Au8; bl];
+                        let (ptype, exts) = match call {
+                            0 => (0x0800u16, vec![]),
+                            1 => (0x0800u16, vec![Extension::new(0x0233, &[0xE1, 0xE2]).unwrap()]),
+                            _ => (0x0081u16, vec![Extension::new(0x0081, &[]).unwrap()]),
+                        };
+                        let meta = EncapMetadata::new(ptype, label);
+                        let r = if call == 0 { enc_guard(&mut enc, &pdu, 9, meta, &mut buf) } else { enc_ext_guard(&mut enc, &pdu, 9, meta, &mut buf, exts) };
+                        let mut check = |what: &str, n: usize, want_kind: &[wire::Kind], buf: &[u8], rep: &mut Report| {
+                            if n < 2 || n > buf.len() {
+                                rep.violation("C14", format!("emit-view:{}:reported-length", what), || format!("{} reported {} bytes in a {}-byte buffer", what, n, buf.len()), || replay(key));
+                                return;
+                            }
+                            let w = u16::from_be_bytes([buf[0], buf[1]]);
+                            let k = wire::Kind::from_word(w);
+                            let glen = (w & 0x0FFF) as usize;
+                            rep.nontrivial(0x4_0000_0000 + ((w as u64) << 8) + key);
+                            if wire::is_padding_word(w) || glen + 2 != n || !want_kind.contains(&k) {
+                                rep.violation("C14", format!("emit-view:{}:header-word", what), || format!("{} (label type {}, buffer {}, pdu {}) reported {} bytes of kind {:?} but the header word {:#06x} reads kind {:?}, GSE length {}", what, lti, buf.len(), pl, n, want_kind, w, k, glen), || replay(key));
+                            }
+                            let wl = wire::lt_of_word(w);
+                            if matches!(k, wire::Kind::Complete | wire::Kind::First) && wl != lti {
+                                rep.violation("C14", format!("emit-view:{}:label-type", what), || format!("{}: label type bits {} for a label of type {}", what, wl, lti), || replay(key));
+                            }
+                        };
+                        let what = ["encap", "encap_ext", "encap_ext-final"][call as usize];
+                        match r {
+                            Err(p) => rep.violation("C14", format!("emit-view:{}:panic", what), || format!("{} panicked: {}", what, p), || replay(key)),
+                            Ok(Err(_)) => rep.count("emit.err"),
+                            Ok(Ok(EncapStatus::CompletedPkt(n))) => {
+                                rep.count("emit.complete");
+                                check(what, n as usize, &[wire::Kind::Complete], &buf, rep);
+                            }
+                            Ok(Ok(EncapStatus::FragmentedPkt(n, mut ctx))) => {
+                                rep.count("emit.first");
+                                check(what, n as usize, &[wire::Kind::First], &buf, rep);
+                                // continuations into the same family of buffers
+                                for step in 0..12 {
+                                    let bl2 = bufs[(step * 7 + bl) % bufs.len()];
+                                    let mut b2 = vec![0x5Au8; bl2];
+                                    match enc_frag_guard(&enc, &pdu, &ctx, &mut b2) {
+                                        Err(p) => {
+                                            rep.violation("C14", "emit-view:encap_frag:panic".into(), || format!("encap_frag panicked: {}", p), || replay(key));
+                                            break;
+                                        }
+                                        Ok(Err(_)) => {}
+                                        Ok(Ok(EncapStatus::CompletedPkt(n))) => {
+                                            rep.count("emit.end");
+                                            check("encap_frag", n as usize, &[wire::Kind::End], &b2, rep);
+                                            break;
+                                        }
+                                        Ok(Ok(EncapStatus::FragmentedPkt(n, c2))) => {
+                                            rep.count("emit.inter");
+                                            check("encap_frag", n as usize, &[wire::Kind::Inter], &b2, rep);
+                                            ctx = c2;
+                                        }
+                                    }
+                                }
+                            }
                         }
                     }
                 }
